@@ -218,6 +218,11 @@ def program_cases(quick):
                     pats = pats[::3] + [pats[-1]]
                 for zp in pats:
                     yield {"kind": "akai_program", "base": which, "nkg": nkg, "zones": list(zp), "addr": addr, "dev": []}
+        # keygroups that are exact copies of one another
+        for nkg, copies in ((2, [[0, 1]]), (3, [[0, 1]]), (3, [[0, 2]]), (3, [[1, 2]]), (3, [[0, 1], [0, 2]])):
+            addr = [150 * (k + 1) for k in range(nkg)]
+            yield {"kind": "akai_program", "base": which, "nkg": nkg, "zones": [1, 1, 0, 0], "addr": addr,
+                   "dev": [["copykg", a, b] for a, b in copies]}
         if not quick:
             fl = [(n, k) for n, o, k in AP.PROGRAM_FIELDS if k not in ("name12", "u16") and n != "number_of_keygroups"]
             for (n1, k1), (n2, k2) in zip(fl, fl[1:]):
@@ -245,6 +250,10 @@ def build_program(case):
             kgs[d[1]]["values"][d[2]] = d[3]
         elif d[0] == "zone":
             kgs[d[1]]["zones"][d[2]][d[3]] = d[4]
+        elif d[0] == "copykg":
+            # keygroup d[2] is an exact copy of keygroup d[1] (what "copy keygroup" leaves behind): every parameter, every zone
+            import copy as _copy
+            kgs[d[2]] = _copy.deepcopy(kgs[d[1]])
     img, path = program_image(v, kgs, temper, case["addr"])
     return img, path, program_expect(v, kgs, temper), "PFILE"
 
@@ -368,7 +377,7 @@ class Check(CheckBase):
             "names over all 41 AKAI characters in the sample name, file name, program name and zone sample names, "
             "AKAI program header (all 46 parameters + 12 temperaments), keygroup parameters of keygroup 0 and 1, zone velocity "
             "ranges, keygroup count 1..3 x address layouts (contiguous, permuted, gaps, non-multiples of 150, first address != "
-            "150) x all 16 zone-name patterns (<=2 zones with 3 keygroups), Roland sample (5 points x address/fine corners, 7 "
+            "150) x all 16 zone-name patterns (<=2 zones with 3 keygroups), keygroups that are exact copies of one another, Roland sample (5 points x address/fine corners, 7 "
             "loop modes, 6 frequencies x mono/stereo), CDDA tracks; thorough: all pairs of adjacent fields. Printed tree parsed "
             "back and compared with printed forms derived from the stored bytes. non-trivial = every deviated case")
     assumptions = ["enumeration labels are compared case- and punctuation-insensitively with the documented labels",
